@@ -39,8 +39,22 @@ def determinism_selftest(prop, seed, batches, profiles, jobs, n_per_batch=4):
         n = 1 if b in ("abort_enum", "conc_enum") else n_per_batch
         idxs = plans.batch_indices(b, runs)[:n]
         specs += [(b, i) for i in idxs]
-    res, _ = run_pool([(selftest_task, (prop, seed, specs, profiles))], 1)
-    twice = res[0]
+    # fresh interpreter under another hash seed, started first so that it runs
+    # while the in-process pairs are executed in parallel workers
+    env = dict(os.environ)
+    env["PYTHONHASHSEED"] = "12345" if os.environ.get("PYTHONHASHSEED") != "12345" else "54321"
+    env["VERIF_REPO"] = REPO
+    # (enumeration runs are hundreds of executions each: they are compared in
+    # process only)
+    cross = [(b, i) for b, i in specs if b not in ("abort_enum", "conc_enum")]
+    arg = ",".join(f"{b}:{i}" for b, i in cross)
+    cmd = [sys.executable, "-m", "sim.run", "--property", prop, "--seed", str(seed), "--digests", arg]
+    proc = subprocess.Popen(cmd, cwd=ROOT, env=env, stdout=subprocess.PIPE, stderr=subprocess.PIPE,
+                            text=True)
+    res, _ = run_pool([(selftest_task, (prop, seed, [sp], profiles)) for sp in specs], jobs)
+    twice = {}
+    for r in res:
+        twice.update(r)
     warm_dependent = []
     for k, (d1, d2, c1, c2) in twice.items():
         if c1 != c2:
@@ -52,19 +66,19 @@ def determinism_selftest(prop, seed, batches, profiles, jobs, n_per_batch=4):
     if warm_dependent:
         print(f"self-test note: trace of {warm_dependent} differs between first and second "
               "execution in one process (process-global caches in the library); verdicts agree")
-    # fresh interpreter, different hash seed
-    env = dict(os.environ)
-    env["PYTHONHASHSEED"] = "12345" if os.environ.get("PYTHONHASHSEED") != "12345" else "54321"
-    env["VERIF_REPO"] = REPO
-    arg = ",".join(f"{b}:{i}" for b, i in specs)
-    cmd = [sys.executable, "-m", "sim.run", "--property", prop, "--seed", str(seed), "--digests", arg]
-    p = subprocess.run(cmd, cwd=ROOT, env=env, capture_output=True, text=True, timeout=900)
-    line = [l for l in p.stdout.splitlines() if l.startswith("DIGESTS ")]
-    if p.returncode != 0 or not line:
-        raise HarnessFailure(f"determinism self-test subprocess failed: rc={p.returncode}\n{p.stdout[-2000:]}\n{p.stderr[-2000:]}")
+    try:
+        out, err = proc.communicate(timeout=900)
+    except subprocess.TimeoutExpired:
+        proc.kill()
+        raise HarnessFailure("determinism self-test subprocess timed out")
+    line = [l for l in out.splitlines() if l.startswith("DIGESTS ")]
+    if proc.returncode != 0 or not line:
+        raise HarnessFailure(f"determinism self-test subprocess failed: rc={proc.returncode}\n{out[-2000:]}\n{err[-2000:]}")
     other = json.loads(line[0][len("DIGESTS "):])
     hash_order_dependent = []
     for k, (d1, _, c1, _) in twice.items():
+        if k not in other:
+            continue
         if other[k][1] != c1:
             raise HarnessFailure(f"determinism self-test: verdict differs across interpreters for {k}: {other[k]} vs {[d1, c1]}")
         if other[k][0] != d1:
